@@ -129,6 +129,31 @@ CLAIMED = {
    note="Open finding inferred-null-column-peek (bare column names with an always-NULL column: unbounded peek). Transport buffering after "
         "writer.write is not modelled; 'accepts' means drain() returns. The composition over whole executions is validated by lock-step.",
    technique="Coq proof (per-operation invariants, induction over the source's item list, modular arithmetic for the yield bound) + lock-step correspondence"),
+ "C02": dict(
+   text="Proved for EVERY function H with 20-byte output (nothing about SHA-1 is assumed): the scramble of the account's password under "
+        "the issued nonce is accepted for every password and nonce; acceptance <=> the first 20 bytes XOR H(nonce ++ stored) is a "
+        "pre-image of the stored secret (bytes beyond 20 ignored); a malformed stored hash never accepts; a response accepted under "
+        "two different nonces exhibits a collision of H; every acceptance goes through the quick path, the current or the secondary "
+        "password; XOR involution; every nonce character is NUL-free; the handshake's 8+13 split is lossless. Tie: function shapes "
+        "and the nonce alphabet regenerated from auth.py/utils.py; password_matches run with a Gallina SHA-1 (checked against "
+        "hashlib) on accounts x nonces x responses incl. every single-bit corruption and truncation; the four routes through the "
+        "real connection.",
+   design="7/C02",
+   note="Freshness of nonces rests on random.SystemRandom (distinctness is a test). Clear-password / no-login decisions are checked on the "
+        "implementation; 'user = the identity the plugin vouched for' is checked through the four routes.",
+   technique="Coq proof over an abstract hash (algebra of XOR, collision argument) + translator facts + vm_compute correspondence with a Gallina SHA-1"),
+ "C05": dict(
+   text="Proved: the duration decomposition (sign, hours, minutes, seconds, microseconds) is lossless for every timedelta; binary TIME "
+        "decodes to the application's duration (reference decoder from the protocol text); integers of every width round-trip in "
+        "two's complement and in decimal text; text rows decode to the same cells for every column count, NULL pattern and cell "
+        "length; the binary NULL bitmap (offset 2) is read back for every column count; length-prefixed strings of every length; "
+        "type inference by peeking preserves the row list and the column count. Tie: encoder tables and bodies regenerated from "
+        "results.py/packets.py; every type x domain values byte-for-byte against the model, the Coq decoders applied to the "
+        "implementation's bytes, rows with every NULL pattern, inference on random shapes with duplicate names.",
+   design="7/C05",
+   note="repr(float), IEEE packing and the character-set codecs are CPython's (passed through). Text TIME decoding and date/datetime decoding "
+        "are validated by the correspondence runs (decoders evaluated in Coq on the implementation's bytes), not yet theorems.",
+   technique="Coq proof (arithmetic of div/mod, two's complement, bitmap packing, induction over rows) + translator facts + vm_compute correspondence"),
 }
 
 PENDING = {}
